@@ -23,6 +23,8 @@ type c08Call struct {
 	i      int64 // initial F.I
 	max    uint64
 	cancel int // poll index at which the context flips (0 = never)
+	// a name "remove:<rule>" is not a call: RemoveRuleEntry(<rule>) on the instance (fresh comparison
+	// instances get the same removals)
 }
 
 type c08Set struct {
@@ -48,6 +50,7 @@ func c08World(k, i int64) *ref.World {
 	}
 	f.B = k >= 10
 	w.Objs["F"] = f
+	w.Objs["V"] = facts.New() // a result fact that rules only write to
 	return w
 }
 
@@ -57,12 +60,14 @@ var c08Sets = []c08Set{
 			grl.R("inc", nil, "F.I < 2", "F.I = F.I + 1"),
 			grl.R("done", grl.Sal(10), "F.K == 1 && F.I == 1", "Complete()"),
 			grl.R("self", grl.Sal(5), "F.K == 3 && F.I2 < 1", `Retract("self")`, "F.I2 = F.I2 + 1"),
+			grl.R("verdict", grl.Sal(-3), "F.I >= 2", "V.I2 = 7", `V.S = "approved"`, `Retract("verdict")`),
 		}
 	}, []c08Call{
 		{"exec-normal", false, 0, 0, 10, 0}, {"exec-normal-i1", false, 0, 1, 10, 0}, {"exec-complete", false, 1, 0, 10, 0}, {"exec-selfretract", false, 3, 0, 10, 0},
 		{"exec-cancel@2", false, 0, 0, 10, 2}, {"exec-cancel@5", false, 3, 0, 10, 5}, {"exec-limit", false, 0, 0, 1, 0},
 		{"exec-selfretract-then-limit", false, 3, 0, 1, 0}, {"exec-selfretract-then-cancel@12", false, 3, 0, 10, 12},
 		{"fetch-k0", true, 0, 0, 0, 0}, {"fetch-k3", true, 3, 0, 0, 0}, {"fetch-k1-i1", true, 1, 1, 0, 0},
+		{"remove:done", false, 0, 0, 0, 0}, {"remove:verdict", false, 0, 0, 0, 0},
 	}},
 	{"actionerror+limit+retractother", func() []*grl.Rule {
 		return []*grl.Rule{
@@ -183,12 +188,21 @@ func C08(rep *ev.Reporter, tier string) {
 			if err != nil {
 				return "C08:instance-failed", err.Error()
 			}
+			var removed []string
 			for n, ci := range h.calls {
 				c := s.calls[ci]
+				if rm, ok := strings.CutPrefix(c.name, "remove:"); ok {
+					kb.RemoveRuleEntry(rm)
+					removed = append(removed, rm)
+					continue
+				}
 				obsUsed := c08Observe(b, c, h.order, kb)
 				fresh, err := b.Instance()
 				if err != nil {
 					return "C08:instance-failed", err.Error()
+				}
+				for _, r := range removed {
+					fresh.RemoveRuleEntry(r)
 				}
 				obsFresh := c08Observe(b, c, h.order, fresh)
 				atomic.AddInt64(&nCalls, 2)
@@ -232,7 +246,7 @@ func C08(rep *ev.Reporter, tier string) {
 		rep.Exhaustive = false
 		rep.Coverage["caps_hit"] = "time budget"
 	}
-	rep.Coverage["rule"] = fmt.Sprintf("every call history of length 2..%d over the call alphabet of each of 4 rule sets (the 4th has conditions that evaluate on some facts and fail with an error on others, parenthesised and shared between rules) (Execute ending normally / by Complete / by action error / at the cycle limit / by cancellation at poll p / after a rule retracted itself or another; FetchMatchingRules; each with its own facts) under 3 static rule orders; states = histories, transitions = calls on the reused instance. Differential oracle: listener trace, return value and final facts of the n-th call on the reused instance equal those of the same call on a new instance. Every history has >=1 earlier call, so every one is non-trivial.", maxLen)
+	rep.Coverage["rule"] = fmt.Sprintf("every call history of length 2..%d over the call alphabet of each of 4 rule sets (the 4th has conditions that evaluate on some facts and fail with an error on others, parenthesised and shared between rules) (Execute ending normally / by Complete / by action error / at the cycle limit / by cancellation at poll p / after a rule retracted itself or another; FetchMatchingRules; each with its own facts; instance-level RemoveRuleEntry as a step between calls) under 3 static rule orders; states = histories, transitions = calls on the reused instance. Differential oracle: listener trace, return value and final facts of the n-th call on the reused instance equal those of the same call on a new instance. Every history has >=1 earlier call, so every one is non-trivial.", maxLen)
 }
 
 func lastOf(s []string) string {
